@@ -1,4 +1,67 @@
-import ErgoModel.Exec
+/-
+  C05 — compact changes nothing a reader can see.
+-/
+import ErgoProofs.Lemmas.ReachInv
+import ErgoProofs.Lemmas.StorageThm
 namespace Ergo
-theorem C05_placeholder : True := trivial
+
+/-- for every history the CLI can produce: replaying the compacted log succeeds, every live item's observable data
+    (state, claimant and claim time, title, body, epic, results in order, created/updated timestamps) and the edge set are
+    identical, pruned ids stay absent (no tombstone and no item), and every invariant still holds -/
+theorem C05_observables_preserved (log : List Event) (h : ReachOK log) :
+    ∃ g g', replay log = .ok g ∧ replay (compactEvents g) = .ok g' ∧ ObsEq g' g ∧ g'.tombs = [] ∧
+      (∀ i ∈ g.tombs, g'.has i = false) ∧ AllInv g' := by
+  obtain ⟨g, hr, hinv⟩ := reach_replay log h
+  obtain ⟨g', h1, hobs, ht, hok, h0⟩ := compact_replay' g hinv.ok hinv.epic0
+  refine ⟨g, g', hr, h1, hobs, ht, ?_, allInv_of_obsEq hobs hok h0 hinv⟩
+  intro i hi
+  -- a pruned id is not live in g (WF), and ObsEq transfers "not found"
+  have hnl : g.find? i = none := by
+    cases hf : g.find? i with
+    | none => rfl
+    | some t =>
+      have hm := List.find?_some hf
+      have hmem := List.mem_of_find?_eq_some hf
+      have : t.id = i := by simpa using hm
+      exact absurd (this ▸ hi) (hinv.ok.wf.live_not_tombed t hmem)
+  have := hobs.1 i
+  rw [hnl] at this
+  cases hf' : g'.find? i with
+  | none =>
+    simp only [Graph.has, List.any_eq_false]
+    intro t ht hti
+    have := List.find?_eq_none.1 hf' t ht
+    exact this hti
+  | some t => rw [hf'] at this; cases this
+
+/-- ready / blocked flags are unchanged -/
+theorem C05_flags_preserved (g g' : Graph) (hwf : WF g) (hwf' : WF g') (h : ObsEq g g') (t t' : Task)
+    (ht : t ∈ g.tasks) (ht' : t' ∈ g'.tasks) (hid : t.id = t'.id) :
+    isReady g t = isReady g' t' ∧ isBlocked g t = isBlocked g' t' :=
+  obsEq_isReady g g' hwf hwf' h t t' ht ht' hid
+
+/-- the order in which `claim` would hand tasks out is unchanged -/
+theorem C05_claim_order_preserved (g g' : Graph) (hwf : WF g) (hwf' : WF g') (h : ObsEq g g') (epic : Id) :
+    (readyTasks g epic).map (·.id) = (readyTasks g' epic).map (·.id) :=
+  obsEq_readyOrder g g' hwf hwf' h epic
+
+/-- compacting an already compacted log changes nothing: the event list is identical -/
+theorem C05_idempotent (log : List Event) (h : ReachOK log) (g g' : Graph) (hr : replay log = .ok g)
+    (hr' : replay (compactEvents g) = .ok g') : compactEvents g' = compactEvents g := by
+  obtain ⟨g0, h0, hinv⟩ := reach_replay log h
+  rw [hr] at h0; injection h0 with h0; subst h0
+  exact compact_idempotent' g g' hinv.ok hinv.epic0 hr'
+
+/-- commands issued after compaction keep every invariant: compaction is one more reachable step -/
+theorem C05_compaction_is_a_reachable_step (log : List Event) (h : ReachOK log) (g : Graph) (hg : replayRaw log = .ok g)
+    (env : Env) (henv : EnvOK g env) : ReachOK (runCmd log env .compact).log :=
+  ReachOK.step env .compact h hg henv
+
+/-- a log whose tail was torn by a crash: the fragment is invisible to compaction's read -/
+theorem C05_torn_tail_irrelevant {classify : Storage.Bytes → Storage.LineClass} {limit : Nat} (f frag : Storage.Bytes)
+    (hcl : Storage.Closed f) (hnl : Storage.NL ∉ frag) (hne : frag ≠ []) (hbad : classify (Storage.dropCR frag) = .bad)
+    (hlen : frag.length < limit) :
+    Storage.readEvents classify limit (f ++ frag) = Storage.readEvents classify limit f :=
+  Storage.readEvents_fragment f frag hcl hnl hne hbad hlen
+
 end Ergo
